@@ -248,10 +248,11 @@ def run(chk: Check, tier: str):
     # ---- unbounded companion of the model check: the exactness lemma proved by the TLA+ proof system (any family, any keys)
     import tlaps
 
-    pr = tlaps.prove("McsLemma")
-    chk.cov["tlaps_McsLemma"] = {k: pr[k] for k in ("available", "proved", "refuted", "obligations", "wall_s")}
-    if pr["refuted"]:  # an obligation the provers reject is a fault of the specification; an unavailable / crashing prover is only recorded
-        machinery_failure("tlapm could not re-check spec/McsLemma.tla:\n" + pr["out"])
+    for mod in ("McsLemma", "McsEnumProof"):
+      pr = tlaps.prove(mod)
+      chk.cov["tlaps_" + mod] = {k: pr[k] for k in ("available", "proved", "refuted", "obligations", "wall_s")}
+      if pr["refuted"]:  # an obligation the provers reject is a fault of the specification; an unavailable / crashing prover is only recorded
+        machinery_failure(f"tlapm rejects an obligation of spec/{mod}.tla:\n" + pr["out"])
     # ---- (a) CNF faithfulness
     sig2 = ["a", "b"]
     f0, f1 = all_formulas(sig2, 0), all_formulas(sig2, 1)
